@@ -22,6 +22,9 @@ pub struct Case {
     pub oracles: Vec<String>,
     pub well_formed: bool,
     pub w2: u32,
+    pub input2: Option<String>,
+    pub marks: Vec<Mark>,
+    pub texts: Vec<String>,
 }
 
 #[derive(Clone, Debug)]
@@ -72,6 +75,55 @@ fn run_case(c: &Case) -> CaseOut {
                 }
                 if is_eof && !t.get_content().is_empty() {
                     oracle_failures.push("lex: end-of-file token has content".to_string());
+                }
+            }
+            // independent oracles for the boundary clauses: (a) both identifier routines agree at every
+            // identifier start (hook), (b) position/length independence: an identifier, keyword or number
+            // scanned on its own (followed by a blank) is one token of the same length, and contains no blank
+            {
+                let mut off = 0usize;
+                let mut prev_dot = false;
+                let mut in_asm = false;
+                for t in toks.iter() {
+                    let ws = t.get_leading_whitespace().len();
+                    let content = t.get_content();
+                    let start = off + ws;
+                    let kind = t.get_token_type();
+                    let wordlike = matches!(kind, RawTokenType::Identifier | RawTokenType::Keyword(_) | RawTokenType::IdentifierOrKeyword(_) | RawTokenType::NumberLiteral(_));
+                    if wordlike && !in_asm {
+                        if matches!(kind, RawTokenType::Identifier | RawTokenType::Keyword(_) | RawTokenType::IdentifierOrKeyword(_)) && !content.starts_with('&') {
+                            if content.chars().any(is_blank) {
+                                oracle_failures.push("lex: an identifier/keyword token contains a blank character".to_string());
+                            }
+                            let first_len = content.chars().next().map_or(1, |ch| ch.len_utf8());
+                            let a = pasfmt_core::prelude::verif_find_identifier_end(0, &c.input, start + first_len);
+                            let b = pasfmt_core::prelude::verif_find_identifier_end(1, &c.input, start + first_len);
+                            if let (Some(a), Some(b)) = (a, b) {
+                                bump(&mut stats, "ident_routines_compared", 1);
+                                if a != b {
+                                    oracle_failures.push(format!("lex: the generic and the AVX2 identifier routine disagree ({} vs {})", a, b));
+                                }
+                            }
+                        }
+                        if !prev_dot {
+                            let iso = format!("{} ", content);
+                            let t2 = DelphiLexer {}.lex(&iso);
+                            let same_kind = format!("{:?}", t2[0].get_token_type()) == format!("{:?}", kind);
+                            if t2[0].get_content() != content || !same_kind {
+                                oracle_failures.push("lex: a word/number token scanned on its own has a different boundary or kind".to_string());
+                            }
+                        }
+                    }
+                    if matches!(kind, RawTokenType::Keyword(KeywordKind::Asm)) {
+                        in_asm = true;
+                    }
+                    if in_asm && matches!(kind, RawTokenType::Keyword(KeywordKind::End)) {
+                        in_asm = false;
+                    }
+                    if !matches!(kind, RawTokenType::Comment(_) | RawTokenType::CompilerDirective | RawTokenType::ConditionalDirective(_)) {
+                        prev_dot = matches!(kind, RawTokenType::Op(OperatorKind::Dot));
+                    }
+                    off = start + content.len();
                 }
             }
             bump(&mut stats, "tokens", toks.len());
@@ -143,6 +195,11 @@ fn run_case(c: &Case) -> CaseOut {
                     "c12" => oracles::c12_multiline_strings(&c.input, &c.cfg),
                     "c14" => oracles::c14_lines(&c.input, c.well_formed),
                     "c15" => oracles::c15_cursors(&c.input, &c.cfg, &c.cursors),
+                    "c06" => match &c.input2 {
+                        Some(b) => oracles::c06_relayout(&c.input, b, &c.cfg),
+                        None => vec![],
+                    },
+                    "c05" if !c.marks.is_empty() => oracles::c05_structure(&c.input, &c.cfg, &c.marks, &c.texts),
                     _ => vec![],
                 };
                 bump(&mut stats, &format!("oracle_runs:{}", o), 1);
@@ -552,10 +609,35 @@ fn cmd_emit(a: &Args) {
     let mut rng = Rng::new(seed);
     let mut cases: Vec<Case> = vec![];
     for (input, cfg) in corpus_inputs(&stream) {
-        cases.push(Case { stream: stream.clone(), family: "corpus".into(), input, cfg, cursors: vec![], oracles: oracle_list.clone(), well_formed: false, w2: 80 });
+        cases.push(Case { stream: stream.clone(), family: "corpus".into(), input, cfg, cursors: vec![], oracles: oracle_list.clone(), well_formed: false, w2: 80, input2: None, marks: vec![], texts: vec![] });
     }
     let per = (count + families.len() - 1) / families.len().max(1);
     for fam in &families {
+        if fam == "relayout" || fam == "marked" {
+            let mut r = rng.fork();
+            for _ in 0..per {
+                let budget = *r.pick(&[5, 15, 40, 40, 100, 250]);
+                let mut g = Grammar::new(&mut r, budget);
+                g.allow_asm = false;
+                g.unit();
+                let p = Program { toks: g.out };
+                let cfg = Cfg::random(&mut r);
+                if fam == "relayout" {
+                    let shared = r.next();
+                    let with_comments = r.chance(1, 2);
+                    let a = render_relayout(&p, shared, &mut r, with_comments);
+                    let b = render_relayout(&p, shared, &mut r, with_comments);
+                    cases.push(Case { stream: stream.clone(), family: fam.clone(), input: a, cfg, cursors: vec![], oracles: oracle_list.clone(), well_formed: true, w2: 80, input2: Some(b), marks: vec![], texts: vec![] });
+                } else {
+                    let o = LayoutOpts { comments: false, directives: false, blank_lines: r.chance(1, 2), crlf: false, tabs: r.chance(1, 3), tight: r.chance(1, 3) };
+                    let input = if r.chance(1, 3) { render_plain(&p) } else { render_layout(&p, &mut r, o) };
+                    let marks: Vec<Mark> = p.toks.iter().map(|t| t.mark).collect();
+                    let texts: Vec<String> = p.toks.iter().map(|t| t.text.clone()).collect();
+                    cases.push(Case { stream: stream.clone(), family: fam.clone(), input, cfg, cursors: vec![], oracles: oracle_list.clone(), well_formed: true, w2: 80, input2: None, marks, texts });
+                }
+            }
+            continue;
+        }
         let mut r = rng.fork();
         let inputs = gen_inputs(fam, &mut r, per, &seeds);
         for input in inputs {
@@ -581,7 +663,7 @@ fn cmd_emit(a: &Args) {
                 cursors = (0..=input.len() + 2).filter(|p| *p >= input.len() || input.is_char_boundary(*p)).map(|p| p as u32).collect();
             }
             let w2 = *r.pick(&[10u32, 20, 30, 40, 60, 80, 100, 120, 160, 200]);
-            cases.push(Case { stream: stream.clone(), family: fam.clone(), input, cfg, cursors, oracles: oracle_list.clone(), well_formed, w2 });
+            cases.push(Case { stream: stream.clone(), family: fam.clone(), input, cfg, cursors, oracles: oracle_list.clone(), well_formed, w2, input2: None, marks: vec![], texts: vec![] });
         }
     }
     let t0 = Instant::now();
